@@ -715,3 +715,49 @@ def p5b_one_discipline_many_inputs(ctx):
         ctx.probe("completion_order_differs_from_submission")
     ctx.case((sig, n_inputs, n_workers, tuple(sorted(failing)), tuple(actions)), nontrivial=True)
     ctx.sample = {"cfg": cfg, "schedule": actions, "none_slots": [i for i in range(n_inputs) if out[i] is None]}
+
+
+# ------------------------------------------------------------------------------------
+# P6: gemseo.utils.multiprocessing.execution.execute - the same call in sequential and parallel mode
+# ------------------------------------------------------------------------------------
+def p6_execute_helper(ctx):
+    from gemseo.utils.multiprocessing.execution import execute
+
+    t = ctx.tape
+    n_tasks = t.randint(1, 6, "n_tasks")
+    n_workers = t.randint(2, 4, "n_workers")
+    n_cb = t.randint(1, 2, "n_callbacks")
+    inputs = [5 * i + 2 for i in range(n_tasks)]
+    cfg = {"workload": "P6-execute-helper", "n_tasks": n_tasks, "n_workers": n_workers, "n_callbacks": n_cb}
+    ctx.event("cfg", canon(cfg))
+    sig = cfg["workload"]
+
+    def worker(x):
+        return x * 7 + 1
+
+    res = {}
+    clock = SimClock()
+    for label, n_proc in (("sequential", 1), ("parallel", n_workers)):
+        logs = [[] for _ in range(n_cb)]
+        cbs = [(lambda i, o, log=log: log.append((i, o))) for log in logs]
+        if n_proc == 1:
+            out = execute(worker, cbs, 1, inputs)
+        else:
+            with engine(ctx, "proc", clock) as eng:
+                out = execute(worker, cbs, n_proc, inputs)
+                order = [i for k, i in eng.e.actions if k == "complete"]
+        res[label] = (out, logs)
+    exp_out = [worker(x) for x in inputs]
+    exp_log = sorted((i, worker(x)) for i, x in enumerate(inputs))
+    ctx.event("res", canon(res["sequential"]), canon(res["parallel"]), tuple(order))
+    for label, (out, logs) in res.items():
+        if out != exp_out:
+            ctx.violate("C13.positional", f"{sig} {label}", f"{label} outputs {out} != {exp_out}; cfg={cfg}")
+        for log in logs:
+            if sorted(log) != exp_log:
+                ctx.violate("C13.callback", f"{sig} {label} callback-index",
+                            f"{label} mode: callbacks received {log}, expected each (index, output) once: {exp_log}; cfg={cfg}")
+    if order != sorted(order):
+        ctx.probe("completion_order_differs_from_submission")
+    ctx.case((sig, n_tasks, n_workers, tuple(order)), nontrivial=n_tasks >= 2)
+    ctx.sample = {"cfg": cfg, "completion_order": order}
